@@ -36,16 +36,15 @@ class PoEntity(PoEntityMixin, Entity):
 
 
 # Unescape and concat a string list
+# Escapes are resolved in a single pass, so that an escaped backslash
+# followed by t, r, n or " doesn't get unescaped a second time.
+po_escape = re.compile(r'\\([\\trn"])')
+po_escapes = {"\\": "\\", "t": "\t", "r": "\r", "n": "\n", '"': '"'}
+
+
 def eval_stringlist(lines):
     return "".join(
-        (
-            line.replace(r"\\", "\\")
-            .replace(r"\t", "\t")
-            .replace(r"\r", "\r")
-            .replace(r"\n", "\n")
-            .replace(r"\"", '"')
-        )
-        for line in lines
+        po_escape.sub(lambda m: po_escapes[m.group(1)], line) for line in lines
     )
 
 
